@@ -142,8 +142,9 @@ pub fn float_sign_rule(cx: &mut Ctx, rule: &str, rel: &str, owner: &str, fname: 
     let Ok(src) = sm::load(&cx.repo, rel) else { return cx.anchor_missing(rule, rel) };
     let Some(f) = src.method(owner, fname) else { return cx.anchor_missing(rule, &format!("{}::{}", owner, fname)) };
     let param = f.sig.inputs.iter().nth(1).and_then(|a| if let syn::FnArg::Typed(pt) = a { Some(sm::tsc(&pt.pat)) } else { None }).unwrap_or_else(|| "num".into());
-    // the `if COND { "-" } else { .. }` initialiser
+    // the `if COND { "-" } else { .. }` initialiser, and the locals defined before it (COND may name one of them)
     let mut cond: Option<&syn::Expr> = None;
+    let mut before: Vec<(String, &syn::Expr)> = vec![];
     for st in &f.block.stmts {
         if let syn::Stmt::Local(l) = st {
             if let Some(init) = &l.init {
@@ -151,6 +152,13 @@ pub fn float_sign_rule(cx: &mut Ctx, rule: &str, rel: &str, owner: &str, fname: 
                     let then_is_minus = matches!(i.then_branch.stmts.as_slice(), [syn::Stmt::Expr(x, None)] if sm::tsc(x) == "\"-\"");
                     if then_is_minus && cond.is_none() {
                         cond = Some(&i.cond);
+                    }
+                }
+                if cond.is_none() {
+                    let mut ids = vec![];
+                    sm::pat_idents(&l.pat, &mut ids);
+                    if let [id] = ids.as_slice() {
+                        before.push((id.clone(), &init.expr));
                     }
                 }
             }
@@ -165,6 +173,11 @@ pub fn float_sign_rule(cx: &mut Ctx, rule: &str, rel: &str, owner: &str, fname: 
     for (x, want, name) in samples {
         let mut mach = Machine::new(&none);
         mach.set(&param, V::F(x));
+        for (id, init) in &before {
+            if let Ok(v) = mach.eval(init) {
+                mach.set(id, v);
+            }
+        }
         match mach.eval(cond) {
             Ok(V::Bool(b)) if b == want => {}
             Ok(V::Bool(b)) => bad.push(format!("{}: minus sign {}", name, if b { "written" } else { "not written" })),
